@@ -455,6 +455,16 @@ pub fn judge(sc: &Scenario) -> Judgement {
         j.violate(ID, "hang", "hang".into(), format!("the server stops making progress: {h:?}"));
         return j;
     }
+    // exactly one WELL-FORMED answer per request
+    if let Some(crate::h::client::RxMsg::Malformed { why, body }) = rec.frames.iter().map(|f| &f.msg).find(|m| matches!(m, crate::h::client::RxMsg::Malformed { .. })) {
+        j.violate(
+            ID,
+            "one-response",
+            format!("one-response malformed {why}"),
+            format!("the server sent a message that is not a well-formed JSON-RPC response or notification ({why}): {body}"),
+        );
+        return j;
+    }
     // exactly one answer per request, in order; graceful end
     let got: Vec<i64> = rec.responses().iter().map(|r| r.0).collect();
     if got != reqs {
